@@ -16,7 +16,7 @@ pub struct Case {
     /// raw bit patterns (mapped to finite floats of the type's width)
     pub bits: Vec<u64>,
     pub pres: Vec<bool>,
-    /// 0: run-time dimensions 0..6; otherwise one run-time dimension is large (7 .. 140 - gradients of
+    /// below 232: run-time dimensions 0..6; otherwise one run-time dimension is large (7 .. 140 - gradients of
     /// many variables; a rendering that works in blocks or columns breaks only there)
     #[serde(default)]
     pub big: u8,
@@ -175,7 +175,7 @@ impl Property for C18 {
     type Case = Case;
     const ID: &'static str = "C18";
     fn strategy(_tier: Tier) -> BoxedStrategy<Case> {
-        (0..TYPES.len(), dims_strategy(), proptest::collection::vec(any::<u64>(), 56), proptest::collection::vec(proptest::bool::weighted(0.7), 8), prop_oneof![24 => Just(0u8), 1 => 1u8..=255])
+        (0..TYPES.len(), dims_strategy(), proptest::collection::vec(any::<u64>(), 56), proptest::collection::vec(proptest::bool::weighted(0.7), 8), prop_oneof![24 => Just(0u8), 1 => 232u8..=255])
             .prop_map(|(ty, dims, bits, pres, big)| Case { ty, dims, bits, pres, big })
             .boxed()
     }
@@ -184,10 +184,10 @@ impl Property for C18 {
             return Verdict::Trivial("malformed case");
         }
         let mut dims = [case.dims.0 as usize % 7, case.dims.1 as usize % 7];
-        if case.big != 0 && TYPES[case.ty].ndyn >= 1 {
+        if case.big >= 232 && TYPES[case.ty].ndyn >= 1 {
             let b = BIG_DIMS[case.big as usize % BIG_DIMS.len()];
             // the large one is the first or (two dynamic axes) the second dimension
-            if TYPES[case.ty].ndyn >= 2 && case.big >= 128 {
+            if TYPES[case.ty].ndyn >= 2 && case.big >= 244 {
                 dims[1] = b;
             } else {
                 dims[0] = b;
@@ -203,7 +203,7 @@ impl Property for C18 {
         }
     }
     fn rule() -> String {
-        "generated: (any of the 58 registered types incl. static/dynamic vectors of every length 0..6 and nested types; 4% of the cases give a dynamically sized type one large dimension from {7, 9, 16, 33, 64, 100, 127, 128, 129, 130, 137, 140}; every part an arbitrary FINITE float of the type's width from random bit patterns - negative, -0, denormal, huge (300-digit renderings), tiny - all pairwise distinct with overwhelming probability; presence pattern of optional parts). Oracle: `to_string()` is tokenised into numbers and symbol runs (layout characters, brackets and the matrix box are ignored) and must equal, token by token, the sequence derived from the type structure: real part first, then every PRESENT part in the fixed order (matrix blocks row by row), each part/block followed by its documented symbol (ε, ε1, ε1², v1..v3, ε2, ε3, ε1ε2, ...), absent parts missing; every number must parse back (str::parse of the type's width) to exactly the stored bits. Non-trivial: >= 3 numbers printed, one negative and one with |v| < 1e-5 or > 1e16.".into()
+        "generated: (any of the 61 registered types incl. static/dynamic vectors of every length 0..6 and nested types; 4% of the cases give a dynamically sized type one large dimension from {7, 9, 16, 33, 64, 100, 127, 128, 129, 130, 137, 140}; every part an arbitrary FINITE float of the type's width from random bit patterns - negative, -0, denormal, huge (300-digit renderings), tiny - all pairwise distinct with overwhelming probability; presence pattern of optional parts). Oracle: `to_string()` is tokenised into numbers and symbol runs (layout characters, brackets and the matrix box are ignored) and must equal, token by token, the sequence derived from the type structure: real part first, then every PRESENT part in the fixed order (matrix blocks row by row), each part/block followed by its documented symbol (ε, ε1, ε1², v1..v3, ε2, ε3, ε1ε2, ...), absent parts missing; every number must parse back (str::parse of the type's width) to exactly the stored bits. Non-trivial: >= 3 numbers printed, one negative and one with |v| < 1e-5 or > 1e16.".into()
     }
     fn assumptions() -> Vec<String> {
         vec!["separators (` + `, `, `, brackets, the nalgebra matrix box) are not part of the oracle; only numbers, symbols and their order are".into()]
